@@ -9,7 +9,7 @@ seed = int(sys.argv[2]) if len(sys.argv) > 2 else 0
 rng = random.Random(seed * 1000003 + 17)
 cases = P.gen(rng, "quick")[: int(os.environ.get("N", "300"))]
 for i, c in enumerate(cases): c["id"] = i
-hb = V.build_harness()
+hb = V.build_harness(crate=getattr(P, "harness_crate", "harness"), binname=getattr(P, "harness_binname", "vh"))
 assert hb["ok"], hb["out"]
 o = driver.evaluate(P, hb["bin"], cases)
 print("problems", o.problems[:3])
